@@ -188,7 +188,7 @@ def predsOn (cmds : List Cmd) (bc : List BCmd) (lens : List Nat) (text : Bytes) 
     let gs := genStates cmds {}
     let afford := specAffordable text bc
     let sp := if afford then specOk text gs groups else (0, true)
-    "PRED faithful=" ++ boolStr (groups.all (Spec.faithful text)) ++
+    "PRED faithful=" ++ boolStr (groups.all (Spec.faithfulFor text)) ++
       " replacement=" ++ boolStr (replacementsOk procFuel "text".toUTF8.toList gs groups) ++
       (if sp.1 == 0 then "" else " spec=" ++ boolStr sp.2) ++
       (let s2 := if afford then spec2Ok text cmds groups else (0, true); if s2.1 == 0 then "" else " spec2=" ++ boolStr s2.2) ++
